@@ -4,7 +4,6 @@ import (
 	"encoding/base64"
 	"encoding/json"
 	"fmt"
-	"io"
 	"math/rand"
 	"net/http"
 	"os"
@@ -206,6 +205,10 @@ func (r *Run) NewWorld(cfg WorldCfg, uuidSeed int64) *World {
 		done = true
 	})
 	r.Settle()
+	for i := 0; i < 8 && !done && r.HeldNow(); i++ {
+		r.ReleaseHolds() // a hold that fired during construction
+		r.Settle()
+	}
 	if !done {
 		r.Troublef("world construction did not finish")
 	}
@@ -220,7 +223,8 @@ func (r *Run) NewWorld(cfg WorldCfg, uuidSeed int64) *World {
 }
 
 func init() {
-	log.SetOutput(io.Discard)
+	// only panic-level messages are enabled; they go to stderr so that the reason of an emulator crash is recorded
+	log.SetOutput(os.Stderr)
 	log.SetLevel(log.PanicLevel)
 }
 
